@@ -42,6 +42,8 @@ class BeliefMDP(MarkovDecisionProcess):
         for s, s_prob in b.items():
             sa_reward = 0
             for ns, ns_prob in self.pomdp.next_state_dist(s, a).items():
+                if ns_prob == 0:
+                    continue
                 sa_reward += self.pomdp.reward(s, a, ns)*ns_prob
             r += sa_reward*s_prob
         return r
